@@ -384,6 +384,12 @@ func (w *World) runItem(idx int) {
 	a.busy = true
 	w.ev(Ev{K: "api.call", I: it.Inst, S: name, B: in != nil && in.created && in.el.IsLeader()})
 	go func() {
+		w.mu.Lock()
+		if w.apiNames == nil {
+			w.apiNames = map[int]string{}
+		}
+		w.apiNames[curGID()] = it.Do
+		w.mu.Unlock()
 		res := w.callAPI(in, it)
 		w.lock()
 		a.busy = false
